@@ -471,8 +471,9 @@ def selftest(seed=0, n=400):
     import random
     from .engine import explore, fresh_int  # local import: engine imports models
     rnd = random.Random(seed)
-    pts = [0, 1, 9, 10, 15, 16, 17, 99, 100, 127, 128, 129, 255, 256, 257, 999, 1000, 4095, 4096, 9999, 10000,
-           32767, 32768, 65535, 65536, 99999]
+    pts = [0, 15, 16, 127, 128, 255, 256, 32768, 65535, 99999]
+    if n > 8:
+        pts += [9, 10, 4095, 4096, 9999, 10000, 32767, 65536, 1, 17, 99, 100, 129, 257, 999, 1000]
     pts += [rnd.randrange(0, 100000) for _ in range(n)]
     count = [0]
     bad = []
@@ -506,3 +507,33 @@ def selftest(seed=0, n=400):
     if bad:
         raise AssertionError("model layer disagrees with CPython: %r" % (bad[:3],))
     return count[0]
+
+
+# --------------------------------------------------------------------------------------------------------
+# M5 lemma: for a constant divisor k, truncating the IEEE-754 double quotient equals integer division
+def lemma_int_div(k, bits=17, timeout_ms=120000):
+    """discharges  forall a < 2^bits : to_ubv_RTZ(fp.div_RNE(double(a), double(k))) == a udiv k   (QF_BVFP, z3).
+    Returns (verdict, seconds); verdict must be 'unsat' (no counterexample)."""
+    import time as _t
+    a = z3.BitVec("a", 32)
+    F = z3.Float64()
+    fa = z3.fpUnsignedToFP(z3.RNE(), a, F)
+    fk = z3.fpUnsignedToFP(z3.RNE(), z3.BitVecVal(k, 32), F)
+    q = z3.fpToUBV(z3.RTZ(), z3.fpDiv(z3.RNE(), fa, fk), z3.BitVecSort(32))
+    s = z3.Solver()
+    s.set(timeout=timeout_ms)
+    s.add(z3.ULT(a, z3.BitVecVal(1 << bits, 32)))
+    s.add(q != z3.UDiv(a, z3.BitVecVal(k, 32)))
+    t0 = _t.perf_counter()
+    r = str(s.check())
+    return r, round(_t.perf_counter() - t0, 2)
+
+
+def gate_m5(divisors=(2, 256, 2304)):
+    out = {}
+    for k in divisors:
+        r, t = lemma_int_div(k)
+        out["int(a/%d)" % k] = "%s in %ss" % (r, t)
+        if r != "unsat":
+            raise AssertionError("M5 lemma for divisor %d not discharged: %s" % (k, r))
+    return out
